@@ -158,6 +158,33 @@ def step (cfg : Cfg) (fuel : Nat) (st : List Expr) (ins : Array Json) : R (List 
       return (← mkTst t l r) :: tl
   | "zext" => let (x, tl) ← pop1 st; return (← extend cfg fuel false x (← natArg 1)) :: tl
   | "sext" => let (x, tl) ← pop1 st; return (← extend cfg fuel true x (← natArg 1)) :: tl
+  -- RAW constructors: the node is built by the class constructor alone, no construction-time simplification
+  | "rawop" =>
+      let (r, tl) ← pop1 st
+      let (l, tl) ← pop1 tl
+      let name ← strArg 1
+      match (match binPy name with | some o => some o | none => binOper name) with
+      | some bo => return (← mkOp bo l r) :: tl
+      | none => throw .unmodelled
+  | "rawuop" =>
+      let (x, tl) ← pop1 st
+      match (← strArg 1) with
+      | "neg" => return mkUop .sub x :: tl
+      | "not" => return mkUop .not x :: tl
+      | _ => throw .unmodelled
+  | "rawslc" =>
+      let (x, tl) ← pop1 st
+      return (← mkSlc cfg fuel x (← natArg 1) (← natArg 2)) :: tl
+  | "rawcomp" =>
+      -- `c = comp(total); c[pos:pos+p.size] = p` for each part, no simplification
+      let n ← natArg 1
+      if st.length < n then throw .unmodelled
+      let parts := (st.take n).reverse
+      let total := parts.foldl (fun a x => a + x.size) 0
+      let (c, _) ← parts.foldlM (fun (acc : Expr × Nat) (x : Expr) => do
+        let c ← setitem cfg fuel acc.1 (acc.2 : Int) ((acc.2 + x.size : Nat) : Int) x
+        pure (c, acc.2 + x.size)) (Expr.comp total false [], 0)
+      return c :: st.drop n
   | "simp" => let (x, tl) ← pop1 st; return (← simplify cfg fuel {} x) :: tl
   | "simpb" => let (x, tl) ← pop1 st; return (← simplify cfg fuel { bitslice := true } x) :: tl
   | _ =>
